@@ -110,10 +110,13 @@ def report(chk: Check, case: dict, prop: str, origin: str):
 BUFFER_SIGNATURE = "D45:transaction-buffer-evicts"
 
 
-def buffer_case(mode: str, n: int, touch: bool) -> dict:
+def buffer_case(mode: str, n: int, touch: bool, pre: str | None = None) -> dict:
     """one transaction in `mode` that writes `n` distinct keys (w0 .. w<n-1>; with `touch` it re-reads w1 half-way, which
     makes it "recent" in an LRU buffer), reads the oldest, a middle and the newest write back from inside, commits, and
-    reads every key from outside; the same writes go directly to a second cache.  Real code only (the key universe of the
+    reads every key from outside; the same writes go directly to a second cache.  With `pre` = "commit" / "rollback" the block
+    first writes one key and ends that part with an explicit `tx.commit()` / `tx.rollback()`, so that the `n` writes land in the
+    buffer the transaction backend creates *after* a commit or rollback (round 7, C03-19: that buffer was an LRU of 1000
+    entries while the first one was unbounded).  Real code only (the key universe of the
     Lean model's driver has three names; the model's buffer never evicts - Model/Tx.lean `overlaySize`)."""
     from . import vtime
 
@@ -127,7 +130,10 @@ def buffer_case(mode: str, n: int, touch: bool) -> dict:
         await cache.init()
         await direct.init()
         probe = ["w0", "w1", f"w{n // 2}", f"w{n - 1}"]
-        async with cache.transaction(TransactionMode(mode)):
+        async with cache.transaction(TransactionMode(mode)) as tx:
+            if pre:
+                await cache.set("p0", 7)
+                await (tx.commit() if pre == "commit" else tx.rollback())
             for i in range(n):
                 await cache.set(f"w{i}", i)
                 if touch and i == n // 2:
@@ -148,20 +154,21 @@ def buffer_stage(chk: Check, prop: str) -> tuple[int, int]:
     """-> (cases run, violations reported)"""
     runs = found = 0
     for mode in txhist.MODES:
-        for n, touch in ((1001, False), (1100, True)):
-            obs = buffer_case(mode, n, touch)
+        for n, touch, pre in ((1001, False, None), (1100, True, None), (1001, False, "commit"), (1001, True, "rollback")):
+            obs = buffer_case(mode, n, touch, pre)
+            after = f" after an explicit mid-block tx.{pre}()" if pre else ""
             runs += 1
             bad = None
             if prop == "C04" and obs["inside"] != obs["direct"]:
-                bad = (f"a transaction ({mode}) wrote {n} distinct keys; reading w0, w1, w{n // 2}, w{n - 1} and exists(w0) back from inside "
+                bad = (f"a transaction ({mode}) wrote {n} distinct keys{after}; reading w0, w1, w{n // 2}, w{n - 1} and exists(w0) back from inside "
                        f"answered {obs['inside']}, on the directly updated copy {obs['direct']}: an earlier write of the same transaction disappeared")
             if prop == "C03" and obs["missing_after_commit"]:
                 m = obs["missing_after_commit"]
-                bad = (f"a transaction ({mode}) wrote {n} distinct keys and committed; {len(m)} of them are not in the store afterwards "
+                bad = (f"a transaction ({mode}) wrote {n} distinct keys{after} and committed; {len(m)} of them are not in the store afterwards "
                        f"({', '.join(m[:4])}{', ...' if len(m) > 4 else ''}): the commit did not apply all the writes")
             if bad:
                 found += 1
-                chk.violation(bad, {"stage": "transaction-buffer", "mode": mode, "n": n, "touch": touch, "observed": obs,
+                chk.violation(bad, {"stage": "transaction-buffer", "mode": mode, "n": n, "touch": touch, "pre": pre, "observed": obs,
                                     "replay_cmd": f"./check {prop} --replay <this file>"}, signature=BUFFER_SIGNATURE)
                 break
         if found:
@@ -295,7 +302,7 @@ def run_prop(chk: Check, prop: str) -> int:
         chk.proof_broken(proof, found > 0)
     chk.coverage.update({
         "transaction_buffer_cases": nbuf,
-        "transaction_buffer_rule": "D45: per mode one transaction writing 1001 distinct keys and one writing 1100 (re-reading an early key half-way), the "
+        "transaction_buffer_rule": "D45: per mode one transaction writing 1001 distinct keys and one writing 1100 (re-reading an early key half-way), and one each writing 1001 keys after an explicit mid-block tx.commit() / tx.rollback() (the buffer the backend creates afterwards), the "
                                    "oldest / a middle / the newest write read back from inside (C04) and every key read after commit (C03), against "
                                    "the same writes applied directly; real code only; a regression is reported under signature " + BUFFER_SIGNATURE,
         "outside_write_cases": nout,
@@ -408,7 +415,7 @@ def run_prop(chk: Check, prop: str) -> int:
 def replay_prop(chk: Check, prop: str, path: str) -> int:
     c = json.loads(Path(path).read_text())
     if c.get("stage") == "transaction-buffer":
-        obs = buffer_case(c["mode"], c["n"], c["touch"])
+        obs = buffer_case(c["mode"], c["n"], c["touch"], c.get("pre"))
         print(json.dumps(obs)[:600])
         bad = obs["missing_after_commit"] if prop == "C03" else obs["inside"] != obs["direct"]
         if not bad:
